@@ -212,14 +212,14 @@ pub fn run_c03(a: &Args) {
             Ok(tz) => tz,
             Err(e) => {
                 out.soft_cut(45_000);
-                out.emit(zone_event(&az, &z.class));
+                out.set_header(vec![zone_event(&az, &z.class)]);
                 out.emit(json!({"op":"load","cls":"load-fail","name":z.name,"class":z.class,"msg":e,
                                 "posix": if z.class == "posix-string" { String::from_utf8_lossy(&z.bytes).to_string() } else { String::new() }}));
                 continue;
             }
         };
         out.soft_cut(45_000);
-        out.emit(zone_event(&az, &z.class));
+        out.set_header(vec![zone_event(&az, &z.class)]);
         for e in crate::loaders::lookups(z) {
             out.emit(e);
         }
@@ -329,7 +329,7 @@ pub fn run_c04(a: &Args) {
             Err(_) => continue, // reported by the C03 driver
         };
         out.soft_cut(40_000);
-        out.emit(zone_event(&az, &z.class));
+        out.set_header(vec![zone_event(&az, &z.class)]);
         for (t, cls) in change_points(a, &az, &mut rng) {
             let (o1, o2) = offsets_around(&az, t);
             let lo = t + o1.min(o2) as i64;
@@ -435,7 +435,7 @@ pub fn run_c14(a: &Args) {
             Err(_) => continue,
         };
         out.soft_cut(25_000);
-        out.emit(zone_event(&az, &z.class));
+        out.set_header(vec![zone_event(&az, &z.class)]);
         let pts = change_points(a, &az, &mut rng);
         for &(t, cls) in &pts {
             let n = t as i128 * 1_000_000_000;
